@@ -147,7 +147,9 @@ func (ct *Ciphertext[E, S]) UnmarshalCBOR(data []byte) error {
 	if dto.V == nil {
 		return encryption.ErrIsNil.WithMessage("ciphertext component V is nil")
 	}
-	ctt, err := NewCiphertext(dto.V.Components()[0], dto.V.Components()[1])
+	// exactly two components: a shorter element would be indexed out of range, a longer one silently
+	// truncated
+	ctt, err := NewCiphertextFromGroupElement(dto.V)
 	if err != nil {
 		return errs.Wrap(err).WithMessage("could not create ciphertext from unmarshaled components")
 	}
